@@ -72,3 +72,21 @@ func (t *Timer) Reset(d Duration) bool {
 }
 
 func After(d Duration) <-chan Time { return NewTimer(d).C }
+
+// AfterFunc runs f on its own (controlled) thread once d has elapsed on the virtual clock.
+func AfterFunc(d Duration, f func()) *Timer {
+	if !vsched.Active() {
+		return &Timer{real: time.AfterFunc(d, f)}
+	}
+	t := NewTimer(d)
+	vsched.Go("afterfunc", func() {
+		vsched.Recv(t.C) // a stopped timer leaves this thread parked for the rest of the execution
+		f()
+	})
+	return t
+}
+
+func Date(year int, month Month, day, hour, min, sec, nsec int, loc *Location) Time {
+	return time.Date(year, month, day, hour, min, sec, nsec, loc)
+}
+func Parse(layout, value string) (Time, error) { return time.Parse(layout, value) }
